@@ -37,6 +37,9 @@ def main(tier, replay):
         if not quick:
             J('%s-3f-lists2' % t, n, [0, 3, 2, 2, 1, 9, 1, 0, 0, 0])
             J('%s-2n' % t, n, [2, 0, 0, 2, 1, 9, 1, 0, 0, 0])
+    # statistics after ANOTHER writer instance ran in the same process (recycled statistics objects, package-level state)
+    for t in ('int32', 'int64', 'string', 'bool', 'uint64'):
+        J('%s-after-other-instance' % t, 'flat_' + t, [0, 3, 1, 2, 1, 9, 1, 0, 0, 3])
     # optional numeric leaves under a repeated group: one record contributes several null entries
     J('repopt-1n-lists3', 'repopt', [1, 0, 0, 3, 1, 9, 1, 0, 0, 0])
     J('repopt-1n1f', 'repopt', [1, 1, -1, 2, 1, 9, 1, 1, 0, 0])
@@ -47,7 +50,7 @@ def main(tier, replay):
     run_program_jobs(c, mod, infos, jobs, native_templates=NATIVE, record=6 if not quick else 0)
     c.programs = len(P)
     c.bounds = {'values per page and column': '<= 4 (quick) / 6 (thorough)', 'types': progs.PRIMS, 'strings': '<= 2 bytes, one value per run up to 10 bytes; one job with 70-byte values',
-                'page size': 'symbolic >= 1 (statistics are per page)', 'outside': 'pages with more values; strings longer than 10 bytes; distinct_count (never written)'}
+                'page size': 'symbolic >= 1 (statistics are per page)', 'other instances': 'for five types the workload runs after two other writer instances of the same type (all-nil records, then ordinary ones)', 'outside': 'pages with more values; strings longer than 10 bytes; distinct_count (never written)'}
     c.assumptions = [STUB_ASSUMPTIONS[k] for k in ('A1', 'A3', 'A4', 'A5', 'A6')] + ['float order: IEEE comparisons encoded over bit patterns, lemma proved each run against the FloatingPoint theory']
     c.finish('paths enumerate record structure (nil/non-nil, list lengths) and page-size outcomes; all column values are symbolic (ints as bit-vectors, floats as IEEE bit patterns incl. every NaN payload, +-0, +-Inf, strings as bytes); a path is non-trivial when at least one obligation went to the solver',
              'generated stats accumulators (add/Min/Max/NullCount), field Add/Write, DoWrite, WritePageHeader executed from SSA; the Statistics of every page header captured at the thrift boundary are compared with the page slice of the reference striping: null_count exact, min/max sound in signed/unsigned/IEEE/bytewise order, absent without non-null values')
